@@ -149,6 +149,7 @@ class Knobs:
         self.max_funs = 3
         self.early_exit = True
         self.early_exit_bias = False
+        self.exit_stress = False         # loop-heavy programs whose loop bodies shadow and leave early
         self.matches = True
         self.prints = True
         self.__dict__.update(kw)
@@ -573,9 +574,10 @@ class Gen:
         if k.assignment:
             opts += [(3, "assign"), (2, "addassign")]
         if depth > 0:
-            opts += [(3, "if"), (3, "for")]
+            lw = 4 if k.exit_stress else 1
+            opts += [(3, "if"), (3 * lw, "for")]
             if k.while_loops and k.assignment:
-                opts += [(2, "while")]
+                opts += [(2 * lw, "while")]
             if k.matches:
                 opts += [(2, "match")]
             if k.closures and self.in_closure == 0:
@@ -658,7 +660,7 @@ class Gen:
                 self.push()
                 dest = self.declare(t, "loopvar")
             self.loop_depth += 1
-            body = self.block_in_scope(r.int(1, 3), d)
+            body = self.loop_body(d)
             self.loop_depth -= 1
             self.pop()
             return S("for", (dest, le, body))
@@ -670,7 +672,7 @@ class Gen:
             extra = self.expr(BOOL, 1, pure=True) if r.bool(0.3) else None
             self.push()
             self.loop_depth += 1
-            body = self.block_in_scope(r.int(1, 3), d)
+            body = self.loop_body(d)
             self.loop_depth -= 1
             self.pop()
             return S("while", (cb, limit, extra, body))
@@ -743,6 +745,79 @@ class Gen:
                     arms.append((("variant", n, b), bb))
             if r.bool(0.4):
                 arms = arms[:r.int(1, 2)] + [(("wild",), self.block(1, d))]
+        return S("match", (scrut, tuple(arms)))
+
+    # ---- early-exit stress: a loop body that declares a (usually shadowing) name and leaves through a
+    #      break/continue nested inside if / match wrappers
+    def loop_body(self, d) -> Block:
+        if self.k.exit_stress and self.r.bool(0.85):
+            return self.exit_stress_body(d)
+        if self.k.early_exit and self.k.early_exit_bias and self.r.bool(0.5):
+            return self.exit_stress_body(d)
+        return self.block_in_scope(self.r.int(1, 3), d)
+
+    def shadowing_decl(self) -> list:
+        r = self.r
+        t = r.choice([INT, STR, INT])
+        e = self.expr(t, 1)
+        name = None
+        if self.k.shadowing and r.bool(0.8):
+            cur = self.scopes[-1]
+            outer = [n for sc in self.scopes[:-1] for n, b in sc.items()
+                     if n not in cur and b.kind != "counter" and n != "fuel" and not n.startswith("f")]
+            if outer:
+                name = r.choice(outer)
+        b = self.declare(t, name=name)
+        return [S("let", (b, self.maybe_hint(t), e)), S("print", (E("var", (b,), t),))]
+
+    def exit_stress_body(self, d) -> Block:
+        r = self.r
+        out = []
+        if r.bool(0.8):
+            out += self.shadowing_decl()
+        out.append(self.exit_wrapper(r.int(1, 2)))
+        out += self.stmts(r.int(0, 2), max(0, d))
+        return Block(out)
+
+    def exit_wrapper(self, depth) -> S:
+        """if / match wrapper (nested `depth` deep) whose innermost block ends in break or continue."""
+        r = self.r
+
+        def inner_block():
+            self.push()
+            st = []
+            if r.bool(0.5):
+                st += self.shadowing_decl()
+            if depth > 1:
+                st.append(self.exit_wrapper(depth - 1))
+            else:
+                st.append(S(r.choice(["break", "continue"]), ()))
+            self.pop()
+            return Block(st)
+
+        kind = r.choice(["if", "match", "match", "else"])
+        stress = self.k.exit_stress
+        if kind == "if":
+            c = E("bool", (True,), BOOL) if (stress and r.bool(0.6)) else self.expr(BOOL, 1)
+            return S("if", (c, inner_block(), None))
+        if kind == "else":
+            self.push()
+            other = Block([S("print", (self.expr(STR, 1),))])
+            self.pop()
+            c = E("bool", (False,), BOOL) if (stress and r.bool(0.6)) else self.expr(BOOL, 1)
+            return S("if", (c, other, inner_block()))
+        pt = r.choice([INT, STR])
+        scrut = self.expr(TOption(pt), 1)
+        if stress and r.bool(0.6):
+            scrut = E("some", (self.lit(pt),), TOption(pt)) if r.bool() else E("none", (), TOption(pt))
+        self.push()
+        pb = self.declare(pt, "pattern")
+        some_blk = inner_block() if r.bool(0.6) else Block([S("print", (E("var", (pb,), pt),))])
+        self.pop()
+        none_blk = inner_block() if (r.bool(0.6) or some_blk.stmts[-1].kind == "print") else Block([])
+        arms = [(("some", pb), some_blk), (("none",), none_blk)]
+        if r.bool(0.3):
+            arms.reverse()
         return S("match", (scrut, tuple(arms)))
 
     def block(self, n, depth) -> Block:
